@@ -91,35 +91,41 @@ def lessValLoop (base r : Int) : Nat → Int → Int → Res Int
 /-- `x &^ (1 << bar)` -/
 def clearBit (mask bar : Nat) : Nat := mask - (mask &&& 2 ^ bar)
 
+/-- `if noNarrow && narrowMask == 0 && n-elmWidth-(elements-bar-1) >= elements-bar-1 { subVal -= combins(…) }`, `eb = elements-bar` -/
+def narrowAdjust (n elmWidth eb : Int) (noNarrow : Bool) (mask : Nat) (sub0 : Int) : Res Int :=
+  if noNarrow ∧ mask = 0 ∧ n - elmWidth - (eb - 1) ≥ eb - 1 then
+    match combins (n - elmWidth - eb) (eb - 2) with
+    | .error e => .error e
+    | .ok c => .ok (sub0 - c)
+  else .ok sub0
+
+/-- `if elements-bar-1 > 1 { … subVal -= lessVal * (elements-1-bar) } else if n-elmWidth > maxWidth { subVal-- }` -/
+def widthAdjust (n elmWidth eb maxWidth : Int) (sub1 : Int) : Res Int :=
+  if eb - 1 > 1 then
+    let hi := n - elmWidth - (eb - 2)
+    match lessValLoop (n - elmWidth) (eb - 3) (hi - maxWidth).toNat hi 0 with
+    | .error e => .error e
+    | .ok lessVal => .ok (sub1 - lessVal * (eb - 1))
+  else if n - elmWidth > maxWidth then .ok (sub1 - 1)
+  else .ok sub1
+
+/-- `subVal` of one iteration of the inner loop -/
+def subValOf (n elmWidth eb maxWidth : Int) (noNarrow : Bool) (mask : Nat) : Res Int :=
+  match combins (n - elmWidth - 1) (eb - 2) with
+  | .error e => .error e
+  | .ok sub0 =>
+    match narrowAdjust n elmWidth eb noNarrow mask sub0 with
+    | .error e => .error e
+    | .ok sub1 => widthAdjust n elmWidth eb maxWidth sub1
+
 /-- the inner loop of `RSSUtils_getRSSvalue` for one `bar`: `k` iterations left, returns (val, elmWidth, narrowMask) -/
 def elmLoop (n : Int) (elements bar : Nat) (maxWidth : Int) (noNarrow : Bool) :
     Nat → Int → Nat → Int → Res (Int × Int × Nat)
   | 0, elmWidth, mask, val => .ok (val, elmWidth, mask)
   | k + 1, elmWidth, mask, val =>
-    let eb : Int := (elements : Int) - (bar : Int)
-    match combins (n - elmWidth - 1) (eb - 2) with
+    match subValOf n elmWidth ((elements : Int) - (bar : Int)) maxWidth noNarrow mask with
     | .error e => .error e
-    | .ok sub0 =>
-      let sub1 : Res Int :=
-        if noNarrow ∧ mask = 0 ∧ n - elmWidth - (eb - 1) ≥ eb - 1 then
-          match combins (n - elmWidth - eb) (eb - 2) with
-          | .error e => .error e
-          | .ok c => .ok (sub0 - c)
-        else .ok sub0
-      match sub1 with
-      | .error e => .error e
-      | .ok sub1 =>
-        let sub2 : Res Int :=
-          if eb - 1 > 1 then
-            let hi := n - elmWidth - (eb - 2)
-            match lessValLoop (n - elmWidth) (eb - 3) (hi - maxWidth).toNat hi 0 with
-            | .error e => .error e
-            | .ok lessVal => .ok (sub1 - lessVal * (eb - 1))
-          else if n - elmWidth > maxWidth then .ok (sub1 - 1)
-          else .ok sub1
-        match sub2 with
-        | .error e => .error e
-        | .ok sub2 => elmLoop n elements bar maxWidth noNarrow k (elmWidth + 1) (clearBit mask bar) (val + sub2)
+    | .ok sub => elmLoop n elements bar maxWidth noNarrow k (elmWidth + 1) (clearBit mask bar) (val + sub)
 
 /-- the outer loop over `bar = 0 … elements-2`; `ws` = `widths[bar:]` -/
 def barLoop (elements : Nat) (maxWidth : Int) (noNarrow : Bool) : List Int → Nat → Int → Nat → Int → Res Int
@@ -300,11 +306,9 @@ def decrement (array : List Int) (errors : List F) : Res (List Int) :=
 /-- Go `x & 0x01` on an int -/
 def lowBit (x : Int) : Int := x.emod 2
 
-/-- `adjustOddEvenCounts(outsideChar, numModules)` on (oddCounts, evenCounts) with their rounding errors -/
-def adjustOddEvenCounts (outside : Bool) (numModules : Int) (odd even : List Int) (oddErr evenErr : List F) :
-    Res (List Int × List Int) :=
-  let oddSum := sumI odd
-  let evenSum := sumI even
+/-- the flag logic of `adjustOddEvenCounts`: (incrementOdd, decrementOdd, incrementEven, decrementEven) after the
+    `switch mismatch`, or NotFound -/
+def flagsOf (outside : Bool) (numModules oddSum evenSum : Int) : Res (Bool × Bool × Bool × Bool) :=
   let (decOdd0, incOdd0, decEven0, incEven0) : Bool × Bool × Bool × Bool :=
     if outside then
       (decide (oddSum > 12), decide (¬ oddSum > 12 ∧ oddSum < 4), decide (evenSum > 12), decide (¬ evenSum > 12 ∧ evenSum < 4))
@@ -313,34 +317,55 @@ def adjustOddEvenCounts (outside : Bool) (numModules : Int) (odd even : List Int
   let mismatch := oddSum + evenSum - numModules
   let oddParityBad : Bool := if outside then lowBit oddSum = 1 else lowBit oddSum = 0
   let evenParityBad : Bool := lowBit evenSum = 1
-  -- (incrementOdd, decrementOdd, incrementEven, decrementEven) after the switch, or NotFound
-  let flags : Res (Bool × Bool × Bool × Bool) :=
-    if mismatch = 1 then
-      if oddParityBad then
-        if evenParityBad then .error .notFound else .ok (incOdd0, true, incEven0, decEven0)
-      else
-        if !evenParityBad then .error .notFound else .ok (incOdd0, decOdd0, incEven0, true)
-    else if mismatch = -1 then
-      if oddParityBad then
-        if evenParityBad then .error .notFound else .ok (true, decOdd0, incEven0, decEven0)
-      else
-        if !evenParityBad then .error .notFound else .ok (incOdd0, decOdd0, true, decEven0)
-    else if mismatch = 0 then
-      if oddParityBad then
-        if !evenParityBad then .error .notFound
-        else if oddSum < evenSum then .ok (true, decOdd0, incEven0, true)
-        else .ok (incOdd0, true, true, decEven0)
-      else
-        if evenParityBad then .error .notFound else .ok (incOdd0, decOdd0, incEven0, decEven0)
-    else .error .notFound
-  match flags with
+  if mismatch = 1 then
+    if oddParityBad then
+      if evenParityBad then .error .notFound else .ok (incOdd0, true, incEven0, decEven0)
+    else
+      if !evenParityBad then .error .notFound else .ok (incOdd0, decOdd0, incEven0, true)
+  else if mismatch = -1 then
+    if oddParityBad then
+      if evenParityBad then .error .notFound else .ok (true, decOdd0, incEven0, decEven0)
+    else
+      if !evenParityBad then .error .notFound else .ok (incOdd0, decOdd0, true, decEven0)
+  else if mismatch = 0 then
+    if oddParityBad then
+      if !evenParityBad then .error .notFound
+      else if oddSum < evenSum then .ok (true, decOdd0, incEven0, true)
+      else .ok (incOdd0, true, true, decEven0)
+    else
+      if evenParityBad then .error .notFound else .ok (incOdd0, decOdd0, incEven0, decEven0)
+  else .error .notFound
+
+/-- `if increment { if decrement { return NotFound }; RSSReader_increment(array, errors) }` -/
+def stepInc (inc dec : Bool) (array : List Int) (errors : List F) : Res (List Int) :=
+  if inc then (if dec then .error .notFound else increment o array errors) else .ok array
+
+/-- `if decrement { RSSReader_decrement(array, errors) }` -/
+def stepDec (dec : Bool) (array : List Int) (errors : List F) : Res (List Int) :=
+  if dec then decrement o array errors else .ok array
+
+/-- the tail of `adjustOddEvenCounts`: odd counts first, then even counts -/
+def applyFlags (odd even : List Int) (oddErr evenErr : List F) (incOdd decOdd incEven decEven : Bool) :
+    Res (List Int × List Int) :=
+  match stepInc o incOdd decOdd odd oddErr with
   | .error e => .error e
-  | .ok (incOdd, decOdd, incEven, decEven) => do
-    let odd ← if incOdd then (if decOdd then .error .notFound else increment o odd oddErr) else pure odd
-    let odd ← if decOdd then decrement o odd oddErr else pure odd
-    let even ← if incEven then (if decEven then .error .notFound else increment o even evenErr) else pure even
-    let even ← if decEven then decrement o even evenErr else pure even
-    pure (odd, even)
+  | .ok odd1 =>
+    match stepDec o decOdd odd1 oddErr with
+    | .error e => .error e
+    | .ok odd2 =>
+      match stepInc o incEven decEven even evenErr with
+      | .error e => .error e
+      | .ok even1 =>
+        match stepDec o decEven even1 evenErr with
+        | .error e => .error e
+        | .ok even2 => .ok (odd2, even2)
+
+/-- `adjustOddEvenCounts(outsideChar, numModules)` on (oddCounts, evenCounts) with their rounding errors -/
+def adjustOddEvenCounts (outside : Bool) (numModules : Int) (odd even : List Int) (oddErr evenErr : List F) :
+    Res (List Int × List Int) :=
+  match flagsOf outside numModules (sumI odd) (sumI even) with
+  | .error e => .error e
+  | .ok (incOdd, decOdd, incEven, decEven) => applyFlags o odd even oddErr evenErr incOdd decOdd incEven decEven
 
 /-- `for i := len-1; i >= 0; i-- { portion *= 9; portion += counts[i] }` -/
 def checksumPortionOf (counts : List Int) : Int := counts.reverse.foldl (fun acc c => acc * 9 + c) 0
@@ -350,39 +375,53 @@ structure DataCharacter where
   checksumPortion : Int
   deriving Repr, DecidableEq
 
-/-- `decodeDataCharacter(row, pattern, outsideChar)` -/
-def decodeDataCharacter (T : Tables) (row : List Bool) (fp : FinderPattern) (outside : Bool) : Res DataCharacter := do
-  let counters ←
-    if outside then recordPatternInReverseRaw row fp.startEnd.1 8
-    else pure (recordPatternRaw row fp.startEnd.2 8).reverse
-  let numModules : Int := if outside then 16 else 15
-  let elementWidth := o.div (o.ofInt (sumN counters)) (o.ofInt numModules)
-  let rounded := counters.map (roundCount o elementWidth)
-  let (oddR, evenR) := splitOddEven rounded
-  let (odd, even) ← adjustOddEvenCounts o outside numModules (oddR.map (·.1)) (evenR.map (·.1)) (oddR.map (·.2)) (evenR.map (·.2))
+/-- the second half of `decodeDataCharacter`: sums, group, the two RSS values, the character value -/
+def charValue (T : Tables) (outside : Bool) (odd even : List Int) : Res DataCharacter :=
   let oddSum := sumI odd
   let evenSum := sumI even
   let checksumPortion := checksumPortionOf odd + 3 * checksumPortionOf even
   if outside then
-    if lowBit oddSum ≠ 0 ∨ oddSum > 12 ∨ oddSum < 4 then throw .notFound
-    let group := (12 - oddSum).tdiv 2
-    let oddWidest ← nthI T.outsideOddWidest group
-    let evenWidest := 9 - oddWidest
-    let vOdd ← getRSSvalue odd oddWidest false
-    let vEven ← getRSSvalue even evenWidest true
-    let tEven ← nthI T.outsideEvenTotalSubset group
-    let gSum ← nthI T.outsideGsum group
-    pure ⟨vOdd * tEven + vEven + gSum, checksumPortion⟩
+    if lowBit oddSum ≠ 0 ∨ oddSum > 12 ∨ oddSum < 4 then .error .notFound
+    else do
+      let group := (12 - oddSum).tdiv 2
+      let oddWidest ← nthI T.outsideOddWidest group
+      let evenWidest := 9 - oddWidest
+      let vOdd ← getRSSvalue odd oddWidest false
+      let vEven ← getRSSvalue even evenWidest true
+      let tEven ← nthI T.outsideEvenTotalSubset group
+      let gSum ← nthI T.outsideGsum group
+      pure ⟨vOdd * tEven + vEven + gSum, checksumPortion⟩
   else
-    if lowBit evenSum ≠ 0 ∨ evenSum > 10 ∨ evenSum < 4 then throw .notFound
-    let group := (10 - evenSum).tdiv 2
-    let oddWidest ← nthI T.insideOddWidest group
-    let evenWidest := 9 - oddWidest
-    let vOdd ← getRSSvalue odd oddWidest true
-    let vEven ← getRSSvalue even evenWidest false
-    let tOdd ← nthI T.insideOddTotalSubset group
-    let gSum ← nthI T.insideGsum group
-    pure ⟨vEven * tOdd + vOdd + gSum, checksumPortion⟩
+    if lowBit evenSum ≠ 0 ∨ evenSum > 10 ∨ evenSum < 4 then .error .notFound
+    else do
+      let group := (10 - evenSum).tdiv 2
+      let oddWidest ← nthI T.insideOddWidest group
+      let evenWidest := 9 - oddWidest
+      let vOdd ← getRSSvalue odd oddWidest true
+      let vEven ← getRSSvalue even evenWidest false
+      let tOdd ← nthI T.insideOddTotalSubset group
+      let gSum ← nthI T.insideGsum group
+      pure ⟨vEven * tOdd + vOdd + gSum, checksumPortion⟩
+
+/-- the eight counters of a data character: outside = `RecordPatternInReverse` from the pattern start, inside =
+    `RecordPattern` from the pattern end, reversed; the error results of both are ignored by the code -/
+def charCounters (row : List Bool) (fp : FinderPattern) (outside : Bool) : Res (List Nat) :=
+  if outside then recordPatternInReverseRaw row fp.startEnd.1 8
+  else .ok (recordPatternRaw row fp.startEnd.2 8).reverse
+
+/-- `decodeDataCharacter(row, pattern, outsideChar)` -/
+def decodeDataCharacter (T : Tables) (row : List Bool) (fp : FinderPattern) (outside : Bool) : Res DataCharacter :=
+  match charCounters row fp outside with
+  | .error e => .error e
+  | .ok counters =>
+    let numModules : Int := if outside then 16 else 15
+    let elementWidth := o.div (o.ofInt (sumN counters)) (o.ofInt numModules)
+    let rounded := counters.map (roundCount o elementWidth)
+    let oddR := (splitOddEven rounded).1
+    let evenR := (splitOddEven rounded).2
+    match adjustOddEvenCounts o outside numModules (oddR.map (·.1)) (evenR.map (·.1)) (oddR.map (·.2)) (evenR.map (·.2)) with
+    | .error e => .error e
+    | .ok (odd, even) => charValue T outside odd even
 
 /-! ## pairs, history, result -/
 
